@@ -157,7 +157,7 @@ const ruleC10 = "request sequences through the add-checkpoint handler (built as 
 var profC10 = vlib.Profile{
 	Prop: "C10", MinLogs: 1, MaxLogs: 3, MinOps: 2, MaxOps: 24,
 	Storages: []string{"mem", "sql"}, MaxJump: 300, OtherLogPct: 25, Decorate: 12, SharedKeys: true, MixOldPct: 20, NonCanonPct: 8, ECDSAPct: 20,
-	Weights: map[string]int{"grow": 30, "refresh": 8, "fork": 8, "wrongold": 10, "badproof": 10, "replay": 3, "garbage": 5, "unkroot": 2, "wrongkey": 6, "wrongorigin": 4, "unknownlog": 3, "smaller": 4, "decorated": 2, "mismatch": 6, "zero": 1},
+	Weights: map[string]int{"grow": 30, "refresh": 8, "fork": 8, "wrongold": 10, "badproof": 10, "replay": 3, "garbage": 5, "unkroot": 2, "wrongkey": 6, "wrongorigin": 4, "unknownlog": 3, "smaller": 4, "decorated": 2, "mismatch": 6, "zero": 1, "echo": 4},
 }
 
 var bodyDefects = []string{"no-old-prefix", "trailing-junk", "sci", "overflow", "negative", "missing-separator", "bad-base64", "empty", "cp-no-newline", "cp-empty", "oversize"}
@@ -311,6 +311,33 @@ func TestC10Seq(t *testing.T) {
 	})
 }
 
+// TestC10BigSizes: the witness's "true current size" in the stale answer, for sizes that
+// do not fit a signed 64-bit integer (a log may sign any size; first use accepts it).
+func TestC10BigSizes(t *testing.T) {
+	st := vlib.StatsFor("C10", "bigsizes", "fixed two/three-step sequences through the endpoint: first use of a log-signed checkpoint of size S in {2^31, 2^32+1, 2^53+1, 2^62, 2^63-1, 2^63, 2^63+5, 2^64-2, 2^64-1}, then stale, too-large and mismatching requests; non-trivial = any")
+	for _, s := range []uint64{1 << 31, 1<<32 + 1, 1<<53 + 1, 1 << 62, 1<<63 - 1, 1 << 63, 1<<63 + 5, ^uint64(0) - 1, ^uint64(0)} {
+		for _, storage := range []string{"mem", "sql"} {
+			big := vlib.CpSpec{Branch: 0, Size: vlib.SizeSpec{Rel: "abs", Abs: s}, Root: "rand", RootTag: 1, Origin: -1, Signer: -1}
+			other := big
+			other.RootTag = 2
+			c := &vlib.HistCase{Prop: "C10", Storage: storage, Seed: "A", Logs: []vlib.LogSpec{{Origin: "example.com/log", KeyLabel: "log0", KeyName: "logkey"}}, WKeys: vlib.ProdWKeys}
+			c.Ops = []vlib.Op{
+				{Kind: "update", Note: "first-use-big", Cp: big, Old: vlib.SizeSpec{Rel: "abs"}, Proof: vlib.ProofSpec{Kind: "empty"}},
+				{Kind: "update", Note: "stale-big", Cp: big, Old: vlib.SizeSpec{Rel: "abs", Abs: 5}, Proof: vlib.ProofSpec{Kind: "empty"}},
+				{Kind: "update", Note: "stale-big-1", Cp: big, Old: vlib.SizeSpec{Rel: "cur", N: -1}, Proof: vlib.ProofSpec{Kind: "empty"}},
+				{Kind: "update", Note: "mismatch-big", Cp: other, Old: vlib.SizeSpec{Rel: "cur"}, Proof: vlib.ProofSpec{Kind: "empty"}},
+				{Kind: "update", Note: "refresh-big", Cp: big, Old: vlib.SizeSpec{Rel: "cur"}, Proof: vlib.ProofSpec{Kind: "empty"}},
+			}
+			nt, classes, err := runC10(c, st)
+			st.Record(c.Hash(), true || nt, classes, vlib.SampleOf(c))
+			if err != nil {
+				vlib.SaveFailure("C10", "bigsizes", c, err)
+				t.Fatalf("C10 violated (size %d): %v", s, err)
+			}
+		}
+	}
+}
+
 // --- rate limit -----------------------------------------------------------------------
 
 // RateCase: limiter (R, burst R), N valid requests fired back to back.
@@ -417,6 +444,7 @@ func init() {
 		_, _, err := runC10(c, vlib.StatsFor("C10", "seq", ruleC10))
 		return err
 	})
+	vlib.Replayers["C10/bigsizes"] = vlib.Replayers["C10/seq"]
 	vlib.Replayers["C10/rate"] = func(raw json.RawMessage) error {
 		var c RateCase
 		if err := json.Unmarshal(raw, &c); err != nil {
